@@ -90,6 +90,7 @@ FIRST = {
     'i02-C02': 'missed by C02 (L6 reported the thread_local memo in Lookup under C03 / C05 / C16 / C17) -> L6 and G9 now also decide C02, L6 also C12',
     'i13-C13': 'caught (D1 restore-on-every-path), but D1 would also have reported the harmless `if prev != mode:` guard -> D1 excuses the edges on which the saved flag equals the requested mode and adds switch-on-every-path; the seed is still reported because its second test (`is_dict_insertion_ordered(namespace) == mode`) skips the restore',
     'i20-C20': 'missed -> R4 every-dtype-takes-part (the n-ary promotion gets the whole tuple of recorded dtypes; a fold promotes on every iteration)',
+    'j16-C16': 'caught',
     'j04-C04': 'caught (the same change as h01, written independently)', 'j07-C07': 'caught', 'j12-C12': 'caught', 'j14-C14': 'caught', 'j15-C15': 'caught', 'j17-C17': 'caught',
     'j08-C08': 'missed -> M5 derived-spec-through-a-factory: a non-static method that returns treespecs does not hand one out through a static factory that ignores the namespace it is given (Child() -> MakeLeaf)',
     'j11-C11': 'idiom alarm only (S1 lost track of position 4 because the lookup moved into a local lambda; S2 analysis error) -> NS1 follows local lambdas that take a namespace and hand it on (the call `lookup("")` is the report); S1 / S2 read through locals and local lambdas',
